@@ -170,6 +170,8 @@ def run_shard(spec, res):
             kind = kinds[(j + (3 if spec["role"] == "B" else 0)) % len(kinds)]
             confs.append(dict(name="np%d-%s-%s" % (nproc, "mp" if mp else "sp", kind), nproc=nproc, mp=mp,
                               task_plan=delays_for(kind, K, 25, rng), preceding=int(rng.integers(1, 4)) if spec["role"] == "B" and j % 2 == 0 else 0))
+            if spec["role"] == "B" and j == 3:
+                confs[-1]["failing_before"] = True
             if spec["role"] == "B" and j == 2:
                 confs[-1]["debug_before"] = True
                 confs[-1]["preceding"] = max(1, confs[-1].get("preceding", 0))
@@ -210,6 +212,14 @@ def run_shard(spec, res):
             else:
                 e2e.run_case(other)
             res.count("preceding_calls")
+        if conf.get("failing_before"):
+            # an earlier call on the same input that FAILS in its second round (after it may have repopulated a cluster)
+            failing = dict(case)
+            failing["nproc"], failing["mp"] = 1, False
+            failing["task_plan"] = {str(2 * K - 1): {"raise_": ("ValueError", "earlier call fails")}}
+            fr = e2e.run_case(failing)
+            if fr.exc is not None and "earlier call fails" in str(fr.exc):
+                res.count("preceding_calls_that_failed")
         d, perms, run = run_config(case, conf, res)
         res.evaluations += 1
         digests[conf["name"]] = d
@@ -276,6 +286,8 @@ def finalize(merged, tier):
         out["inconclusive"].append("fewer than 3 compared configurations drew points for a repopulation (global-generator dependence unobserved)")
     if merged["counters"].get("preceding_calls_same_NW_other_split", 0) < 3:
         out["inconclusive"].append("fewer than 3 configurations were preceded by a call with the same N*W but another (N,W) split")
+    if merged["counters"].get("preceding_calls_that_failed", 0) < 3:
+        out["inconclusive"].append("fewer than 3 configurations were preceded by a call that failed in its second round")
     if merged["counters"].get("preceding_calls_under_debug_logging", 0) < 3:
         out["inconclusive"].append("fewer than 3 configurations were preceded by a call made under DEBUG logging")
     if merged["counters"].get("preceding_calls_with_large_NW", 0) < 1:
